@@ -75,7 +75,7 @@ def run_shard(pid: str, tier: str, seed: int, shard: int, nshards: int) -> dict:
     from hypothesis import seed as hseed
 
     mod = load_prop(pid)
-    ev = Evidence()
+    ev = Evidence(tier)
     holder: dict = {}
     out = {"shard": shard, "violation": None, "error": None}
     budget = mod.BUDGET[tier]
@@ -245,7 +245,7 @@ def main(argv=None) -> int:
 
     # ---- single replay
     if args.replay:
-        ev = Evidence()
+        ev = Evidence(args.tier)
         v = replay_file(mod, args.replay, ev)
         if v is not None:
             print(f"VIOLATION property={pid} replay={args.replay}")
@@ -255,7 +255,7 @@ def main(argv=None) -> int:
         return 0
 
     t0 = time.time()
-    ev = Evidence()
+    ev = Evidence(args.tier)
     violations = []
     for f in open_findings(pid):
         print(f"KNOWN-FINDING: property={pid} {f['what']}")
